@@ -79,7 +79,7 @@ def boards_overlap(ctx):
     rng = ctx.rng
     R = ctx.runner('Fat')
     import fatspec
-    for rnd in range(6 if ctx.thorough else 2):
+    for rnd in range(18 if ctx.thorough else 2):
         with tempfile.TemporaryDirectory() as tmp:
             la, lb = c02.LAYOUTS[rnd % len(c02.LAYOUTS)]
             pa, va, na = c02.make_disk(rng, tmp, 'A', la)
@@ -153,7 +153,7 @@ def step_transfer(ctx, sim, t, now, serials, la, lb, order):
 def run(ctx, build):
     R = ctx.try_runner('Tftp')
     rng = ctx.rng
-    nsess = 150 if ctx.thorough else 45
+    nsess = 1200 if ctx.thorough else 45
     if ctx.widen:
         nsess *= 2
     for i in range(nsess):
@@ -215,7 +215,7 @@ def run(ctx, build):
     boards_overlap(ctx)
 
     # ---- real threads, real UDP ---------------------------------------------------------------
-    runs = 4 if ctx.thorough else 1
+    runs = 8 if ctx.thorough else 1
     for r in range(runs):
         n = 10 if ctx.thorough else 6
         res = realserver.run_script(REAL % dict(seed=ctx.seed * 100 + r, n=n))
